@@ -646,3 +646,37 @@ Fixpoint gnt_refs_new (m : mode) (domid base i : N) (count : nat) {struct count}
       let* rest := gnt_refs_new m domid base (i + 1) k in
       Val ((domid, r) :: rest)
   end.
+
+(* ------------------------------------------------------------------------------------------
+   The constructors an ordinary caller of a Xen build reaches (added for C15 / C10, 0.7.w5).
+
+   xen.rs:110-126  MmapRange::new_unix(size, file_offset, addr)
+       let flags = Some(match file_offset {
+           Some(_) => libc::MAP_NORESERVE | libc::MAP_SHARED,
+           None => libc::MAP_ANONYMOUS | libc::MAP_PRIVATE });
+       Self { size, file_offset, prot: None, flags, hugetlbfs: None, addr,
+              mmap_flags: MmapXenFlags::UNIX.bits(), mmap_data: 0 } *)
+Definition new_unix (size : N) (file : option N) (addr : N) : xrange :=
+  {| x_size := size; x_file := file; x_prot := None;
+     x_flags := Some (match file with
+                      | Some _ => N.lor MAP_NORESERVE MAP_SHARED                  (* :112 *)
+                      | None => N.lor MAP_ANONYMOUS MAP_PRIVATE end);              (* :113 *)
+     x_addr := addr; x_mflags := 0 (* UNIX :122 *); x_mdata := 0 (* :123 *) |}.
+
+(* mod.rs:154-169 (Xen build)  GuestRegionMmap::from_range(addr, size, file)
+       let range = MmapRange::new_unix(size, file, addr);
+       let region = MmapRegion::from_range(range).map_err(Error::MmapRegion)?;
+       Self::new(region, addr) *)
+Definition xen_guest_from_range (m : mode) (o : os) (base size : N) (file : option N)
+  : outcome (res xregion * list ev) :=
+  let* (r, l) := xen_from_range m o (new_unix size file base) in                   (* :164-166 *)
+  match r with
+  | Err e => Val (Err e, l)
+  | Ok g => let* (r2, l2) := xen_guest_region_new m o g base in Val (r2, l ++ l2)  (* :167 *)
+  end.
+
+(* the hugetlbfs label: MmapRange.hugetlbfs is None after new / new_unix (:102, :121), Some b after
+   set_hugetlbfs(b) (:139-141); MmapRegion::from_range hands it on unchanged (:274 `hugetlbfs: range.hugetlbfs`)
+   and is_hugetlbfs() returns it (:341-343).  It takes part in no decision of from_range (it is not a field of
+   xrange: nothing above can look at it). *)
+Definition xen_region_huge (range_huge : option bool) : option bool := range_huge.  (* :274 *)
